@@ -337,6 +337,21 @@ def _add(module: Module, val: ModuleAttr) -> ModuleAttr:
         # Nonetheless gotta raise an error if we get here, somehow.
         _attr_type_error(val)
 
+    # A name denotes a single attribute. If `val.name` is currently held by *another* of our
+    # type-based containers, that attribute is being replaced: remove it there and from the namespace,
+    # so that the per-type views and the combined namespace keep listing the same objects.
+    for ctr in (
+        module.ports,
+        module.signals,
+        module.instances,
+        module.instarrays,
+        module.instbundles,
+        module.bundles,
+    ):
+        if ctr is not type_ctr and val.name in ctr:
+            del ctr[val.name]
+            module.namespace.pop(val.name, None)
+
     # Add it to the module namespace, and the type-specific container
     type_ctr[val.name] = val
     module.namespace[val.name] = val
